@@ -56,6 +56,9 @@ ConcNext == /\ UNCHANGED hist
 
 ConcSpec == ConcInit /\ [][ConcNext]_mcvars
 ConcView == <<list, idx, pc, loc, res, n, m>>
+\* liveness (no state constraint hides a cycle: the counters bound the behaviour): a dispatch that has started finishes
+ConcFair == ConcSpec /\ \A t \in Threads : WF_mcvars(UNCHANGED hist /\ UNCHANGED <<n, m>> /\ (TCnt(t) \/ TGet(t) \/ TSend(t)))
+Completes == \A t \in Threads : (pc[t] # "idle") ~> (pc[t] = "idle")
 
 \* Reachability witnesses (anti-vacuity): TLC must *violate* these.
 Reach_RaceEmpty == ~(\E t \in Threads : pc[t] = "haveCnt" /\ list = <<>>)
